@@ -3,7 +3,7 @@ From Coq Require Import List NArith Bool.
 From Coq Require Strings.String.
 From Falco Require Import Base.Res Base.Bytes Base.Utf8.
 From Falco Require Gen.TokenTypes Model.ParseBase Model.Ast.
-From Falco Require Import Model.Lex Model.Pump Model.LexParse Proofs.LexExamples.
+From Falco Require Import Model.Lex Model.Pump Model.PumpLx Model.LexParse Proofs.LexExamples.
 Import ListNotations.
 
 Definition fok_all : ParseBase.str -> bool := fun _ => true.
@@ -48,4 +48,16 @@ Module ExP.
     | _ => False
     end.
   Proof. vm_compute. repeat split. Qed.
+
+  (* ReadPeek on the lexer state = the pump on the token list, evaluated: comments, empty lines, C!, pragma, long string *)
+  Example pump_lx_example :
+    let s := src "# a
+
+sub f { C! pragma x; set b = {q""z""q} // c
+}" in
+    match tokens s with
+    | OK ts => pump_lx (lex_fuel s) (S (List.length ts)) s = pump s /\ (exists ms, pump s = OK ms /\ List.length ms = 11%nat)
+    | _ => False
+    end.
+  Proof. vm_compute. split; [reflexivity|eexists; split; reflexivity]. Qed.
 End ExP.
